@@ -202,7 +202,20 @@ def proof_obligations(prop):
             out["failures"].append(f"forbidden construct `{bad}` in Props/{prop}.lean")
     if re.search(r"^\s*axiom\s", code, flags=re.M):
         out["failures"].append(f"own axiom in Props/{prop}.lean")
-    names = _THEOREM_RE.findall(code)
+    names = []
+    stack = []
+    for line in code.splitlines():
+        m = re.match(r"^\s*namespace\s+([A-Za-z0-9_.']+)", line)
+        if m:
+            stack.append(m.group(1))
+            continue
+        m = re.match(r"^\s*end\s+([A-Za-z0-9_.']+)\s*$", line)
+        if m and stack and stack[-1] == m.group(1):
+            stack.pop()
+            continue
+        m = re.match(r"^\s*(?:private\s+|protected\s+)?theorem\s+([A-Za-z0-9_'.]+)", line)
+        if m:
+            names.append(".".join(stack + [m.group(1)]))
     out["theorems"] = names
     out["obligations"] = len(names)
     ok, logtxt, secs = lake_build([f"DisjointImpls.Props.{prop}", "driver"])
@@ -213,7 +226,7 @@ def proof_obligations(prop):
         return out
     audit = os.path.join(WORK, f"audit_{prop}.lean")
     with open(audit, "w") as f:
-        f.write(f"import DisjointImpls.Props.{prop}\nopen DI\n")
+        f.write(f"import DisjointImpls.Props.{prop}\n")
         for n in names:
             f.write(f"#print axioms {n}\n")
     p = sh(["lake", "env", "lean", audit], cwd=LEAN, check=False, timeout=3600)
@@ -222,10 +235,10 @@ def proof_obligations(prop):
     seen = {}
     for m in re.finditer(r"'([^']+)' (does not depend on any axioms|depends on axioms: \[([^\]]*)\])", txt, flags=re.S):
         axs = set(a.strip() for a in (m.group(3) or "").replace("\n", " ").split(",") if a.strip())
-        seen[m.group(1).split(".")[-1]] = axs
+        seen[m.group(1)] = axs
     axioms_used = set()
     for n in names:
-        key = n.split(".")[-1]
+        key = n
         if key not in seen:
             out["failures"].append(f"theorem {n}: no axiom report (does it exist in namespace DI?)")
             continue
@@ -371,8 +384,13 @@ class Report:
     def known(self, fid, n=1):
         self.known_hits[fid] = self.known_hits.get(fid, 0) + n
 
-    def finish(self, level="proof", assumptions=None, checker_cmd=None):
+    def finish(self, level=None, assumptions=None, checker_cmd=None):
         prop = self.prop
+        if level is None:
+            try:
+                level = json.load(open(os.path.join(VERIF, "harness", "built.json")))[prop].get("category", "proof")
+            except Exception:
+                level = "proof"
         violations = []
         findings = {f["id"]: f for f in findings_for(prop)}
         for fid, n in sorted(self.known_hits.items()):
@@ -407,6 +425,8 @@ class Report:
             "rule": self.rule,
             "samples": self.samples,
             "traces_validated_against_impl": self.evaluations,
+            "programs": max(self.evaluations, 1),
+            "disagreements_checked": self.evaluations,
             "model_vs_impl_disagreements": len(self.disagreements),
             "impl_vs_oracle_failures_unlisted": len(self.oracle_failures),
             "known_findings_hit": self.known_hits,
